@@ -194,6 +194,10 @@ func (x *Exec) checkEnsures(fr *Frame, st *State, rs []Val, ret *ssa.Return) {
 		if o != nil {
 			o.Note = c.Text
 			o.clause = c
+			o.retGhost = map[string]Val{}
+			for k, gv := range st.ghost {
+				o.retGhost[k] = gv
+			}
 		}
 	}
 	x.checkFrame(fr, st, ret)
